@@ -14,6 +14,7 @@ func oneofConfig(disc string, fl bool) ExtV {
 	return ExtV{sh.E_OneofConfig, &sh.OneofConfig{Discriminator: disc, Flatten: fl}}
 }
 func bytesEnc(b sh.BytesEncoding) ExtV { return ExtV{sh.E_BytesEncoding, b} }
+func tsFormat(f sh.TimestampFormat) ExtV { return ExtV{sh.E_TimestampFormat, f} }
 
 func init() {
 	// "codecs": one message per JSON-mapping annotation (each with a plain sibling field),
@@ -70,6 +71,14 @@ func init() {
 			{Name: "url_data", Num: 2, Type: TBytes, Ext: []ExtV{bytesEnc(sh.BytesEncoding_BYTES_ENCODING_BASE64URL)}},
 			{Name: "id", Num: 3, Type: TString},
 		}}
+		const ts = ".google.protobuf.Timestamp"
+		timem := M{Name: "TimeMsg", Fields: []F{
+			{Name: "created", Num: 1, Type: TMessage, TypeName: ts, Ext: []ExtV{tsFormat(sh.TimestampFormat_TIMESTAMP_FORMAT_UNIX_SECONDS)}},
+			{Name: "updated", Num: 2, Type: TMessage, TypeName: ts, Ext: []ExtV{tsFormat(sh.TimestampFormat_TIMESTAMP_FORMAT_UNIX_MILLIS)}},
+			{Name: "day", Num: 3, Type: TMessage, TypeName: ts, Ext: []ExtV{tsFormat(sh.TimestampFormat_TIMESTAMP_FORMAT_DATE)}},
+			{Name: "plain", Num: 4, Type: TMessage, TypeName: ts},
+			{Name: "id", Num: 5, Type: TString},
+		}}
 		// contexts for C05: an annotated message nested in an unannotated parent
 		holder := M{Name: "Holder", Fields: []F{
 			{Name: "one", Num: 1, Type: TMessage, TypeName: p + "Int64Msg"},
@@ -78,8 +87,8 @@ func init() {
 		}}
 		return Schema{Files: []File{{
 			Name: "gen/codecs/codecs.proto", Package: "acme.codecs", GoPackage: "verifmod/gen/codecs;codecs",
-			Deps:     []string{"proto/sebuf/http/annotations.proto"},
-			Messages: []M{child, small, int64m, nullm, emptym, flatm, flatchild, flatann, text, image, oneofm, oneofflat, bytesm, holder},
+			Deps:     []string{"proto/sebuf/http/annotations.proto", "google/protobuf/timestamp.proto"},
+			Messages: []M{child, small, int64m, nullm, emptym, flatm, flatchild, flatann, text, image, oneofm, oneofflat, bytesm, timem, holder},
 			Services: []S{{Name: "CodecService", Methods: []Me{
 				{Name: "EchoInt64", In: p + "Int64Msg", Out: p + "Int64Msg", Ext: []ExtV{HTTP(sh.HttpMethod_HTTP_METHOD_POST, "/int64")}},
 				{Name: "EchoHolder", In: p + "Holder", Out: p + "Holder", Ext: []ExtV{HTTP(sh.HttpMethod_HTTP_METHOD_POST, "/holder")}},
